@@ -4,7 +4,9 @@ Decided:
   R04.a  conflict map complete: check_middlewares folds every ``*provides`` attribute of Middleware and
          every item of args_dict into one map and raises NameError for any name with more than one
          provider; BoundRoute.__init__ passes url / builtins / resources sources (resources = application
-         and route layers) and the merged middleware list;
+         and route layers) and the merged middleware list; that list holds every middleware of the route and of the
+         binding application: merge_middlewares leaves an old one out only when it is a unique type already present
+         (a second instance of a non-unique class must reach the conflict map);
   R04.b  writer/reader tables: every name the framework itself injects (execute(), dispatch(), the inner
          name, the ``context`` variable of the request core) is in RESERVED_ARGS and RESERVED_ARGS holds
          nothing else; the names removed from request/endpoint availability are exactly
@@ -175,6 +177,7 @@ def check_conflict_map(rep):
                         built_by.append(lp)
     rep.check('R04.a', fkey(cm, 'conflicts'), ok, 'any name with more than one provider raises NameError' if ok else
               'a name with several providers does not (always) raise NameError', core, rz[0] if rz else cm.node)
+    chain.check_raise_total(rep, 'R04.a', cm, rz, 'the NameError for conflicting provides')
     if rz:
         ifs = [s for s in stmts_of(cm.node) if isinstance(s, ast.If) and any(r in list(ast.walk(s)) for r in rz)]
         ok = bool(ifs) and cfg.must_pass(cfg.nodes_of_all(ifs), cfg.entry, cfg.exit, normal_only=True) and \
@@ -384,6 +387,7 @@ def check_reserved_resources(rep):
                 guard_if = encl[:1]
     rep.check('R04.c', fkey(ai, 'resources vs reserved'), ok, 'resources & RESERVED_ARGS non-empty => NameError (exact intersection)' if ok else
               'Application.__init__ does not raise NameError for resources named like built-ins', app, rz[0] if rz else ai.node)
+    chain.check_raise_total(rep, 'R04.c', ai, rz, 'the NameError for resources named like built-ins')
     binds = [s for s in stmts_of(ai.node) if any(isinstance(c, ast.Call) and (call_tail(c) == 'bind' or norm(c.func) == 'self.add') for c in ast.walk(s))
              and not isinstance(s, (ast.If,))]
     ok = bool(guard_if) and bool(binds) and all(acfg.must_pass(acfg.nodes_of_all(guard_if), acfg.entry, acfg.nodes_of(b)) for b in binds)
@@ -433,6 +437,7 @@ def check_slots(rep):
                             ok = True
     rep.check('R04.d', fkey(ckm, 'first parameter next'), ok, "a slot function whose first parameter is not 'next' raises TypeError" if ok else
               "check_middleware no longer rejects slot functions whose first parameter is not 'next'", core, ckm.node)
+    chain.check_raise_total(rep, 'R04.d', ckm, [r for r in rz if raise_type(r) == 'TypeError'], 'the TypeError for a malformed middleware function')
     ok = any(raise_type(r) == 'TypeError' and has_cond(conds(ckm, r), lambda t: isinstance(t, ast.Call) and call_name(t) == 'callable'
                                                        and len(t.args) == 1 and isinstance(t.args[0], ast.Name), False) for r in rz)
     rep.check('R04.d', fkey(ckm, 'callable'), ok, 'a non-callable slot raises TypeError' if ok else 'non-callable slots are not rejected', core, ckm.node)
@@ -449,13 +454,14 @@ def run(rep):
     rep.decide('R04.a conflict map exhaustive; R04.b reserved-name tables agree; R04.c resources vs reserved; '
                'R04.d middleware slots / next-first; R04.e next & context placement')
     rep.decline('nothing of substance: Python raising the exceptions is assumed')
-    rep.rule('R04.a', 'exhaustiveness of the provided_by map; more than one provider => NameError')
+    rep.rule('R04.a', 'exhaustiveness of the provided_by map (all sources, all middlewares of both levels); more than one provider => NameError')
     rep.rule('R04.b', 'set equality between injected built-in names and RESERVED_ARGS')
     rep.rule('R04.c', 'resources & RESERVED_ARGS non-empty => NameError before binding')
     rep.rule('R04.d', 'slot tables agree; first parameter next; check_middleware for every middleware')
     rep.rule('R04.e', 'next forbidden in endpoint/render; context only in render availability')
     g = rep.guard
     g(check_conflict_map, rep)
+    g(chain.check_merge_complete, rep, 'R04.a')
     g(check_reserved_tables, rep)
     g(check_reserved_resources, rep)
     g(check_slots, rep)
